@@ -8,6 +8,8 @@ from ..rules_flow import forwarding
 from ..poly import atom, const, padd, pmul, fmt, Poly
 from .common import add_fwd
 from .common import check as ob
+from ..canon import Canon, localise, each, custom
+from ..guards import GuardEval, UNK, dominating_tests, preceding_exits
 
 EXPLANATION = (
     'Decides: (a) for every method with an `inplace` switch (slice, shift, shuffle, reverse, sort_residues, '
@@ -231,7 +233,7 @@ def epoly(e) -> Poly:
     if isinstance(e, ast.Call) and isinstance(e.func, ast.Name) and e.func.id == 'len' and e.args:
         t = norm_stmt(e.args[0])
         if t in ('self.sequence', 'self', 'self._sequence'):
-            return atom('n')
+            return atom('len')
     if isinstance(e, ast.IfExp):
         return epoly(e.body)  # `x if b is not None else None`: the value arm
     return atom(norm_stmt(e))
@@ -246,47 +248,116 @@ def _assigned(m: FuncInfo, name: str) -> List[ast.AST]:
     return out
 
 
+def _mods_store(m: FuncInfo):
+    """(loop, store) of `for <p>, <mods> in self.internal_mods.items(): ... D[<key>] = copy.deepcopy(<mods>)`"""
+    for loop in walk_own(m.node):
+        if isinstance(loop, ast.For) and norm_stmt(loop.iter) in ('self.internal_mods.items()',
+                                                                 'self._internal_mods.items()') and \
+                isinstance(loop.target, ast.Tuple) and len(loop.target.elts) == 2:
+            for node in ast.walk(loop):
+                if isinstance(node, ast.Assign) and isinstance(node.targets[0], ast.Subscript) and \
+                        isinstance(node.targets[0].value, ast.Name):
+                    return loop, node
+    raise AnalysisError(f'{m.fq}: the loop that re-keys the residue modifications was not found')
+
+
+def _interval_ctor(m: FuncInfo):
+    for node in walk_own(m.node):
+        if isinstance(node, ast.Call) and isinstance(node.func, ast.Name) and node.func.id == 'Interval':
+            kws = {kw.arg: kw.value for kw in node.keywords}
+            if 'start' in kws and 'end' in kws:
+                return node, kws
+    raise AnalysisError(f'{m.fq}: the Interval(start=..., end=...) construction was not found')
+
+
+def _roles(m: FuncInfo) -> FuncInfo:
+    """the method with its position / interval loop variables spelled `p` and `interval`"""
+    return localise(m, {'p': each(lambda t: t in ('self.internal_mods.items()', 'self._internal_mods.items()'), (0,)),
+                        'interval': each(lambda t: t in ('self.intervals', 'self._intervals'))})
+
+
+def _values(m: FuncInfo, c: Canon, e) -> List[Tuple[ast.AST, ast.AST]]:
+    """(node for the report, expression) pairs an argument can take: the resolved expression, or every plain
+    assignment of a local that is bound more than once (tuple swaps and None arms are skipped)"""
+    if isinstance(e, ast.Name) and c.is_local(e.id) and c.single_value(e.id) is None:
+        out = []
+        for node in _assigned(m, e.id):
+            if isinstance(node.value, ast.Tuple) or (isinstance(node.value, ast.Constant) and node.value.value is None):
+                continue
+            out.append((node, c.resolve(node.value)))
+        return out
+    return [(e, c.resolve(e))]
+
+
 def index_kinds(ctx, rep, clause):
     program = ctx.program
     cls = program.cls(PFA)
-    n_ = atom('n')
+    n_ = atom('len')
 
-    def expect(m: FuncInfo, var: str, want: Poly, what: str, kind: str):
-        nodes = _assigned(m, var)
-        if not nodes:
-            raise AnalysisError(f'{m.fq}: assignment to {var} not found')
-        for node in nodes:
-            if isinstance(node.value, ast.Tuple) or (isinstance(node.value, ast.Constant) and node.value.value is None):
-                continue
-            got = epoly(node.value)
-            ob(rep, 'KIND', m.fq, f'{what}: {var} = {fmt(want)}', got == want, f'{kind} map',
-               f'`{norm_stmt(node)}` computes {fmt(got)}; a {kind} must be mapped to {fmt(want)}', m.loc(node), clause)
+    def expect(m: FuncInfo, c: Canon, e, want: Poly, what: str, kind: str):
+        vals = _values(m, c, e)
+        if not vals:
+            raise AnalysisError(f'{m.fq}: no value found for {norm_stmt(e)}')
+        for node, val in vals:
+            got = epoly(val)
+            ob(rep, 'KIND', m.fq, f'{what}: {fmt(want)}', got == want, f'{kind} map',
+               f'`{norm_stmt(val)[:90]}` computes {fmt(got)}; a {kind} must be mapped to {fmt(want)}', m.loc(node), clause)
 
-    rev = cls.methods['reverse']
-    expect(rev, 'new_pos', padd(padd(n_, atom('original_pos'), -1), const(1), -1),
-           'reverse maps a residue Position p to n-1-p', 'Position')
-    expect(rev, 'new_start', padd(n_, atom('interval.end'), -1),
-           'reverse maps interval Boundaries (s, e) to (n-e, n-s)', 'Boundary')
-    expect(rev, 'new_end', padd(n_, atom('interval.start'), -1),
-           'reverse maps interval Boundaries (s, e) to (n-e, n-s)', 'Boundary')
-    sl = cls.methods['slice']
-    key_ok = False
-    filt_ok = False
-    for node in walk_own(sl.node):
-        if isinstance(node, ast.Assign) and isinstance(node.targets[0], ast.Subscript) and \
-                norm_stmt(node.targets[0].value) == 'new_internal_mods':
-            key_ok = epoly(node.targets[0].slice) == padd(atom('k'), atom('start'), -1)
-            keynode = node
-        if isinstance(node, ast.If) and norm_stmt(node.test) == 'start <= k < stop':
-            filt_ok = True
+    # -- reverse
+    rev = _roles(cls.methods['reverse'])
+    c = Canon(rev.node)
+    _loop, store = _mods_store(rev)
+    expect(rev, c, store.targets[0].slice, padd(padd(n_, atom('p'), -1), const(1), -1),
+           'reverse maps a residue Position p to len-1-p', 'Position')
+    _call, kws = _interval_ctor(rev)
+    expect(rev, c, kws['start'], padd(n_, atom('interval.end'), -1),
+           'reverse maps interval Boundaries (s, e) to (len-e, len-s), new start', 'Boundary')
+    expect(rev, c, kws['end'], padd(n_, atom('interval.start'), -1),
+           'reverse maps interval Boundaries (s, e) to (len-e, len-s), new end', 'Boundary')
+    # -- slice
+    sl = _roles(cls.methods['slice'])
+    c = Canon(sl.node)
+    loop, store = _mods_store(sl)
+    key_ok = epoly(c.resolve(store.targets[0].slice)) == padd(atom('p'), atom('start'), -1)
     ob(rep, 'KIND', sl.fq, 'slice re-bases a residue Position k to k - start', key_ok, 'Position - Boundary',
-       'the new key of a residue modification is not k - start', sl.loc(), clause)
+       'the new key of a residue modification is not k - start', sl.loc(store), clause)
+    # the store runs for exactly the keys start <= p < stop: decided over a finite set of orderings of (p, start, stop)
+    tests = [(t, pol) for t, pol in dominating_tests(loop, store)] + \
+            [(t, False) for t in preceding_exits(loop.body, store)]
+    bad = None
+    undecided = False
+    for pv in range(-1, 6):
+        for sv in range(0, 5):
+            for ev in range(0, 6):
+                ge = GuardEval({'p': pv, 'start': sv, 'stop': ev}, c.aliases())
+                runs = True
+                for t, pol in tests:
+                    v = ge.eval(t)
+                    if v is UNK:
+                        undecided = True
+                        continue
+                    if bool(v) != pol:
+                        runs = False
+                if runs != (sv <= pv < ev) and bad is None:
+                    bad = (pv, sv, ev, runs)
+    filt_ok = bad is None and not undecided and bool(tests)
     ob(rep, 'KIND', sl.fq, 'slice keeps exactly the Positions start <= k < stop', filt_ok, 'half-open range',
-       'the filter on residue-modification keys is not `start <= k < stop`', sl.loc(), clause)
-    expect(sl, 'new_start', atom(f'max0({fmt(padd(atom("interval.start"), atom("start"), -1))})'),
-           'slice re-bases an interval Boundary b to max(0, b - start)', 'Boundary')
-    expect(sl, 'new_end', atom(f'max0({fmt(padd(atom("interval.end"), atom("start"), -1))})'),
-           'slice re-bases an interval Boundary b to max(0, b - start)', 'Boundary')
+       'the filter on residue-modification keys is not `start <= k < stop`' +
+       (f': for k={bad[0]}, start={bad[1]}, stop={bad[2]} the modification is {"kept" if bad[3] else "dropped"}'
+        if bad else ' (a guard could not be decided over k, start, stop)'), sl.loc(store), clause)
+    # every key is visited: leaving the loop early is only sound over an explicitly ordered iteration
+    exits = [x for x in ast.walk(loop) if isinstance(x, (ast.Break, ast.Return))]
+    ordered = isinstance(loop.iter, ast.Call) and isinstance(loop.iter.func, ast.Name) and loop.iter.func.id == 'sorted'
+    ob(rep, 'KIND', sl.fq, 'slice visits every residue-modification key', not exits or ordered,
+       'no early exit from the loop over the (unordered) position map',
+       f'the loop over self.internal_mods leaves early (`{norm_stmt(exits[0]) if exits else ""}`): the keys of that '
+       f'dict are in insertion order, not residue order (after reverse/shift/add_internal_mod), so modifications '
+       f'filed after a larger position are lost from the piece', sl.loc(exits[0]) if exits else sl.loc(loop), clause)
+    _call, kws = _interval_ctor(sl)
+    expect(sl, c, kws['start'], atom(f'max0({fmt(padd(atom("interval.start"), atom("start"), -1))})'),
+           'slice re-bases an interval Boundary b to max(0, b - start), new start', 'Boundary')
+    expect(sl, c, kws['end'], atom(f'max0({fmt(padd(atom("interval.end"), atom("start"), -1))})'),
+           'slice re-bases an interval Boundary b to max(0, b - start), new end', 'Boundary')
     # which intervals are kept: the half-open ranges [s, e) and [start, stop) intersect
     filt = None
     for node in walk_own(sl.node):
@@ -309,21 +380,33 @@ def index_kinds(ctx, rep, clause):
        'interval.end > start', f'interval filter is {sorted(atoms)}: an interval that only touches the slice at a '
        f'boundary (e == start or s == stop) is carried into the piece as an empty interval with its modifications',
        sl.loc(filt) if filt is not None else sl.loc(), clause)
-    ns = _assigned(sl, 'new_sequence')
+    cuts = [x for x in walk_own(sl.node) if isinstance(x, ast.Subscript) and isinstance(x.slice, ast.Slice) and
+            norm_stmt(x.value) in ('self.sequence', 'self._sequence')]
     ob(rep, 'KIND', sl.fq, 'slice cuts the residues with [start:stop]',
-       bool(ns) and norm_stmt(ns[0].value) == 'self.sequence[start:stop]', 'same half-open range as the keys',
-       f'residues are cut with `{norm_stmt(ns[0].value) if ns else "?"}`', sl.loc(), clause)
-    sh = cls.methods['shift']
-    es = _assigned(sh, 'effective_shift')
-    ob(rep, 'KIND', sh.fq, 'shift reduces the amount modulo the length',
-       bool(es) and norm_stmt(es[0].value) == 'n % seq_len', 'k mod n', 'effective shift is not n % len', sh.loc(),
+       len(cuts) == 1 and norm_stmt(cuts[0]).endswith('[start:stop]'), 'same half-open range as the keys',
+       f'residues are cut with `{norm_stmt(cuts[0]) if cuts else "?"}`', sl.loc(), clause)
+    # -- shift
+    sh = _roles(cls.methods['shift'])
+    c = Canon(sh.node)
+    _loop, store = _mods_store(sh)
+    amount = atom(f'({fmt(atom("n"))}) mod ({fmt(n_)})')
+    expect(sh, c, store.targets[0].slice, atom(f'({fmt(padd(atom("p"), amount, -1))}) mod ({fmt(n_)})'),
+           'shift maps a Position p to (p - n mod len) mod len', 'Position')
+    rot = None
+    for x in walk_own(sh.node):
+        if isinstance(x, ast.BinOp) and isinstance(x.op, ast.Add) and isinstance(x.left, ast.Subscript) and \
+                isinstance(x.right, ast.Subscript) and isinstance(x.left.slice, ast.Slice) and \
+                isinstance(x.right.slice, ast.Slice):
+            rot = x
+    ok = False
+    if rot is not None:
+        a, b = rot.left, rot.right
+        ok = norm_stmt(a.value) == norm_stmt(b.value) == 'self.sequence' and a.slice.upper is None and \
+            b.slice.lower is None and a.slice.lower is not None and b.slice.upper is not None and \
+            epoly(c.resolve(a.slice.lower)) == amount and epoly(c.resolve(b.slice.upper)) == amount
+    ob(rep, 'KIND', sh.fq, 'shift rotates the residues by the same amount', ok,
+       'residue i moves to (i - n mod len) mod len', 'the residue rotation no longer matches the index map', sh.loc(),
        clause)
-    expect(sh, 'shifted_index', atom(f'({fmt(padd(atom("mod_index"), atom("effective_shift"), -1))}) mod (seq_len)'),
-           'shift maps a Position p to (p - k) mod n', 'Position')
-    ssq = _assigned(sh, 'shifted_sequence')
-    ob(rep, 'KIND', sh.fq, 'shift rotates the residues by the same amount',
-       bool(ssq) and norm_stmt(ssq[0].value) == 'self.sequence[effective_shift:] + self.sequence[:effective_shift]',
-       'residue i moves to (i - k) mod n', 'the residue rotation no longer matches the index map', sh.loc(), clause)
 
 
 def rewritten_fields(ctx, rep, clause):
@@ -347,7 +430,18 @@ def rewritten_fields(ctx, rep, clause):
            'from the copy', f'rewrites {sorted(got)}: ' + (f'{sorted(fields - got)} would keep stale indices' if
                                                           fields - got else f'{sorted(got - fields)} is a whole-'
                                                           f'peptide field that must stay in place'), m.loc(), clause)
-    rev = cls.methods['reverse']
+    def _term_local(attr):
+        def find(c, fnode):
+            for node in ast.walk(fnode):
+                if isinstance(node, ast.Assign) and isinstance(node.targets[0], ast.Attribute) and \
+                        node.targets[0].attr == attr:
+                    for x in ast.walk(node.value):
+                        if isinstance(x, ast.Name) and c.is_local(x.id):
+                            return x.id
+            return None
+        return custom(find)
+    rev = localise(cls.methods['reverse'], {'nterm_mods': _term_local('_nterm_mods'),
+                                            'cterm_mods': _term_local('_cterm_mods')}, strict=False)
     swap = None
     for node in walk_own(rev.node):
         if isinstance(node, ast.If) and norm_stmt(node.test) == 'swap_terms':
